@@ -53,13 +53,30 @@ pub struct PushCase {
     /// 2 push subscription deleted after `delete_after_ms`,
     /// 3 push subscription whose topic and then itself are deleted before anything is
     ///   published; both names are then re-created, the subscription WITHOUT a push endpoint,
-    /// 4 a second push subscription (own path, own script) on the topic of the previous case
+    /// 4 a second push subscription (own path, own script) on the topic of the previous case,
+    /// 5 pull subscription; a CreateSubscription of the same name WITH a push endpoint follows
+    ///   and must be rejected (ALREADY_EXISTS) without any effect,
+    /// 6 a CreateSubscription with a push endpoint that must be rejected (topic in another
+    ///   project); afterwards a pull subscription is created under that very name
     pub kind: u8,
     pub delete_after_ms: u32,
     pub payload: crate::case::Payload,
     /// script for every second message of this subscription (by order of first arrival)
     #[serde(default)]
     pub script_odd: Option<Vec<Beh>>,
+    /// ack deadline of the subscription in seconds (0 = the default of 10)
+    #[serde(default)]
+    pub dl: u32,
+}
+
+impl PushCase {
+    fn dl_ms(&self) -> u64 {
+        if self.dl == 0 { 10_000 } else { self.dl as u64 * 1_000 }
+    }
+    /// subscriptions that must never be POSTed to
+    fn pull_only(&self) -> bool {
+        matches!(self.kind, 1 | 3 | 5 | 6)
+    }
 }
 
 #[derive(Clone, Debug)]
@@ -257,6 +274,8 @@ pub fn run_batch(cases: &[PushCase], secs: u64) -> BatchOut {
         }
         // kind 4 shares the topic of the case before it
         let topic_idx = |i: usize| if cases[i].kind == 4 && i > 0 { i - 1 } else { i };
+        // kind 6 lives in a second project
+        let proj = |i: usize| if cases[i].kind == 6 { "qq" } else { "pp" };
         {
             let st = st.clone();
             tokio::spawn(async move {
@@ -285,16 +304,32 @@ pub fn run_batch(cases: &[PushCase], secs: u64) -> BatchOut {
         let mut published: Vec<Vec<Pub>> = Vec::new();
         let mut mkey = 0u64;
         for (i, c) in cases.iter().enumerate() {
-            let topic = format!("projects/pp/topics/top{}", topic_idx(i));
-            let sub = format!("projects/pp/subscriptions/sub{}", i);
+            let topic = format!("projects/{}/topics/top{}", proj(i), topic_idx(i));
+            let sub = format!("projects/{}/subscriptions/sub{}", proj(i), i);
             if topic_idx(i) == i {
                 if let Err(e) = p.create_topic(Topic { name: topic.clone(), ..Default::default() }).await {
                     v("setup_failed", &["C14"], format!("CreateTopic: {}", e));
                 }
             }
-            let push_config = if c.kind == 1 { None } else { Some(PushConfig { push_endpoint: format!("http://127.0.0.1:{}/c{}", port, i), ..Default::default() }) };
-            if let Err(e) = s.create_subscription(Subscription { name: sub.clone(), topic: topic.clone(), ack_deadline_seconds: 10, push_config, ..Default::default() }).await {
+            let endpoint = Some(PushConfig { push_endpoint: format!("http://127.0.0.1:{}/c{}", port, i), ..Default::default() });
+            let dl = if c.dl == 0 { 10 } else { c.dl as i32 };
+            if c.kind == 6 {
+                // must be rejected: the topic is in another project
+                let other = format!("projects/pp/topics/top{}", i);
+                let _ = p.create_topic(Topic { name: other.clone(), ..Default::default() }).await;
+                if let Ok(_) = s.create_subscription(Subscription { name: sub.clone(), topic: other, ack_deadline_seconds: dl, push_config: endpoint.clone(), ..Default::default() }).await {
+                    v("setup_failed", &["C14"], format!("CreateSubscription across projects was accepted for {}", sub));
+                }
+            }
+            let push_config = if matches!(c.kind, 1 | 5 | 6) { None } else { endpoint.clone() };
+            if let Err(e) = s.create_subscription(Subscription { name: sub.clone(), topic: topic.clone(), ack_deadline_seconds: dl, push_config, ..Default::default() }).await {
                 v("setup_failed", &["C14"], format!("CreateSubscription: {}", e));
+            }
+            if c.kind == 5 {
+                // must be rejected: the name is taken
+                if let Ok(_) = s.create_subscription(Subscription { name: sub.clone(), topic: topic.clone(), ack_deadline_seconds: dl, push_config: endpoint.clone(), ..Default::default() }).await {
+                    v("setup_failed", &["C14"], format!("second CreateSubscription of {} was accepted", sub));
+                }
             }
         }
         // kind 3: delete (topic first), then re-create under the same names as pull-only
@@ -315,7 +350,7 @@ pub fn run_batch(cases: &[PushCase], secs: u64) -> BatchOut {
         }
         let t0 = st.lock().unwrap().t0;
         for (i, c) in cases.iter().enumerate() {
-            let topic = format!("projects/pp/topics/top{}", i);
+            let topic = format!("projects/{}/topics/top{}", proj(i), i);
             let mut msgs = Vec::new();
             let mut recs = Vec::new();
             if c.kind == 4 && i > 0 {
@@ -371,7 +406,7 @@ pub fn run_batch(cases: &[PushCase], secs: u64) -> BatchOut {
             if c.kind == 2 {
                 continue;
             }
-            let sub = format!("projects/pp/subscriptions/sub{}", i);
+            let sub = format!("projects/{}/subscriptions/sub{}", proj(i), i);
             #[allow(deprecated)]
             if let Ok(r) = s.pull(PullRequest { subscription: sub, max_messages: 100, return_immediately: true }).await {
                 final_pull.insert(i, r.into_inner().received_messages.into_iter().filter_map(|m| m.message.map(|m| m.message_id)).collect());
@@ -382,12 +417,12 @@ pub fn run_batch(cases: &[PushCase], secs: u64) -> BatchOut {
         // ---------------- oracle ----------------
         for (i, c) in cases.iter().enumerate() {
             let path = format!("/c{}", i);
-            let sub = format!("projects/pp/subscriptions/sub{}", i);
+            let sub = format!("projects/{}/subscriptions/sub{}", proj(i), i);
             let mine: Vec<&Hit> = hits.iter().filter(|h| h.path == path).collect();
-            if c.kind == 1 || c.kind == 3 {
-                // pull-only: never POSTed to
-                if let Some(h) = hits.iter().find(|h| h.subscription.as_deref() == Some(sub.as_str())) {
-                    v("pull_subscription_pushed", &["C14"], format!("{} has no push endpoint but a POST naming it arrived at {} ms", sub, h.t_ms));
+            if c.pull_only() {
+                // pull-only: never POSTed to, neither by name nor at the endpoint of a rejected request
+                if let Some(h) = hits.iter().find(|h| h.subscription.as_deref() == Some(sub.as_str()) || (matches!(c.kind, 5 | 6) && h.path == path)) {
+                    v("pull_subscription_pushed", &["C14", "C17"], format!("{} has no push endpoint but a POST naming it arrived at {} ms on {}", sub, h.t_ms, h.path));
                 }
                 continue;
             }
@@ -435,8 +470,8 @@ pub fn run_batch(cases: &[PushCase], secs: u64) -> BatchOut {
                     if let Some(nx) = hs.get(n + 1) {
                         let unanswered = h.answered_ms.map(|a| a > nx.t_ms).unwrap_or(true);
                         let silent = matches!(h.beh, Beh::Delayed200(_) | Beh::Stall | Beh::Interim(_));
-                        if silent && unanswered && nx.t_ms < h.t_ms + 8_500 {
-                            v("pushed_while_leased", &["C03"], format!("message {} of {} was POSTed at {} ms and again at {} ms although the first POST was still unanswered and its ack deadline had not elapsed", pb.id, sub, h.t_ms, nx.t_ms));
+                        if silent && unanswered && nx.t_ms + 1_500 < h.t_ms + c.dl_ms() {
+                            v("pushed_while_leased", &["C03", "C14"], format!("message {} of {} was POSTed at {} ms and again at {} ms although the first POST was still unanswered and its ack deadline had not elapsed", pb.id, sub, h.t_ms, nx.t_ms));
                             break;
                         }
                     }
@@ -446,7 +481,7 @@ pub fn run_batch(cases: &[PushCase], secs: u64) -> BatchOut {
                     if h.beh.accepting() {
                         // accepted (answer written well before the deadline): never again
                         let answered = h.answered_ms.unwrap_or(h.t_ms);
-                        if answered < h.t_ms + 9_000 {
+                        if answered + 1_000 < h.t_ms + c.dl_ms() {
                             if let Some(nx) = next {
                                 let status = match &h.beh {
                                     Beh::Interim(c) => format!("status {}", c),
@@ -460,7 +495,7 @@ pub fn run_batch(cases: &[PushCase], secs: u64) -> BatchOut {
                     } else {
                         // failure: must be POSTed again (unless the subscription was deleted meanwhile)
                         if next.is_none() {
-                            let bound = if h.beh.answers_nothing() { 10_000 + 6_000 } else { 6_000 };
+                            let bound = if h.beh.answers_nothing() { c.dl_ms() + 6_000 } else { 6_000 };
                             if let Some(d) = del {
                                 if d < h.t_ms + bound {
                                     break;
@@ -545,7 +580,7 @@ pub fn build_cases(tier: Tier, seed: u64, batch: u64) -> Vec<PushCase> {
     };
     // every single behaviour, then "failure then accept", then pairs
     for b in ALPHABET {
-        cases.push(PushCase { script: vec![b.clone()], n_msgs: 1 + (next() % 2) as u8, kind: 0, delete_after_ms: 0, payload: payload(next()), script_odd: None });
+        cases.push(PushCase { script: vec![b.clone()], n_msgs: 1 + (next() % 2) as u8, kind: 0, delete_after_ms: 0, payload: payload(next()), script_odd: None, dl: 0 });
     }
     let all_pairs: Vec<(Beh, Beh)> = ALPHABET.iter().flat_map(|a| ALPHABET.iter().map(move |b| (a.clone(), b.clone()))).collect();
     let want = match tier {
@@ -553,7 +588,7 @@ pub fn build_cases(tier: Tier, seed: u64, batch: u64) -> Vec<PushCase> {
         Tier::Thorough => 150usize,
     };
     let mut k = (batch as usize * 97) % all_pairs.len();
-    while cases.len() < want - 16 {
+    while cases.len() < want - 20 {
         let (a, b) = all_pairs[k % all_pairs.len()].clone();
         k += match tier {
             Tier::Quick => 7,
@@ -566,23 +601,29 @@ pub fn build_cases(tier: Tier, seed: u64, batch: u64) -> Vec<PushCase> {
         if next() % 4 == 0 {
             script.insert(1, ALPHABET[(next() % ALPHABET.len() as u64) as usize].clone());
         }
-        cases.push(PushCase { script, n_msgs: 1 + (next() % 3) as u8, kind: 0, delete_after_ms: 0, payload: payload(next()), script_odd: None });
+        cases.push(PushCase { script, n_msgs: 1 + (next() % 3) as u8, kind: 0, delete_after_ms: 0, payload: payload(next()), script_odd: None, dl: 0 });
     }
     // one round with many messages and an endpoint that is slower than the pacing between
     // dispatches, two subscriptions on one topic, and mixed fates inside one round
-    cases.push(PushCase { script: vec![Beh::Delayed200(300)], n_msgs: 60, kind: 0, delete_after_ms: 0, payload: plain(), script_odd: None });
-    cases.push(PushCase { script: vec![Beh::Delayed200(1_500)], n_msgs: 60, kind: 0, delete_after_ms: 0, payload: plain(), script_odd: None });
-    cases.push(PushCase { script: vec![Beh::Status(200)], n_msgs: 2, kind: 0, delete_after_ms: 0, payload: payload(next()), script_odd: None });
-    cases.push(PushCase { script: vec![Beh::Status(500), Beh::Status(204)], n_msgs: 0, kind: 4, delete_after_ms: 0, payload: plain(), script_odd: None });
-    cases.push(PushCase { script: vec![Beh::Status(200)], n_msgs: 2, kind: 0, delete_after_ms: 0, payload: plain(), script_odd: Some(vec![Beh::Stall, Beh::Status(200)]) });
-    cases.push(PushCase { script: vec![Beh::Status(202)], n_msgs: 3, kind: 0, delete_after_ms: 0, payload: plain(), script_odd: Some(vec![Beh::Delayed200(300)]) });
+    cases.push(PushCase { script: vec![Beh::Delayed200(300)], n_msgs: 60, kind: 0, delete_after_ms: 0, payload: plain(), script_odd: None, dl: 0 });
+    cases.push(PushCase { script: vec![Beh::Delayed200(1_500)], n_msgs: 60, kind: 0, delete_after_ms: 0, payload: plain(), script_odd: None, dl: 0 });
+    cases.push(PushCase { script: vec![Beh::Status(200)], n_msgs: 2, kind: 0, delete_after_ms: 0, payload: payload(next()), script_odd: None, dl: 0 });
+    cases.push(PushCase { script: vec![Beh::Status(500), Beh::Status(204)], n_msgs: 0, kind: 4, delete_after_ms: 0, payload: plain(), script_odd: None, dl: 0 });
+    cases.push(PushCase { script: vec![Beh::Status(200)], n_msgs: 2, kind: 0, delete_after_ms: 0, payload: plain(), script_odd: Some(vec![Beh::Stall, Beh::Status(200)]), dl: 0 });
+    cases.push(PushCase { script: vec![Beh::Status(202)], n_msgs: 3, kind: 0, delete_after_ms: 0, payload: plain(), script_odd: Some(vec![Beh::Delayed200(300)]), dl: 0 });
+    // longer ack deadlines with an endpoint slower than the default deadline
+    cases.push(PushCase { script: vec![Beh::Delayed200(12_000)], n_msgs: 1, kind: 0, delete_after_ms: 0, payload: plain(), script_odd: None, dl: 30 });
+    cases.push(PushCase { script: vec![Beh::Delayed200(12_000)], n_msgs: 2, kind: 0, delete_after_ms: 0, payload: plain(), script_odd: None, dl: 600 });
+    // rejected CreateSubscription requests that carried a push endpoint
+    cases.push(PushCase { script: vec![Beh::Status(200)], n_msgs: 2, kind: 5, delete_after_ms: 0, payload: plain(), script_odd: None, dl: 0 });
+    cases.push(PushCase { script: vec![Beh::Status(200)], n_msgs: 2, kind: 6, delete_after_ms: 0, payload: plain(), script_odd: None, dl: 0 });
     // pull-only controls and deletions
     for j in 0..4 {
         if j < 2 {
-            cases.push(PushCase { script: vec![Beh::Status(200)], n_msgs: 2, kind: 3, delete_after_ms: 0, payload: plain(), script_odd: None });
+            cases.push(PushCase { script: vec![Beh::Status(200)], n_msgs: 2, kind: 3, delete_after_ms: 0, payload: plain(), script_odd: None, dl: 0 });
         }
-        cases.push(PushCase { script: vec![Beh::Status(200)], n_msgs: 2, kind: 1, delete_after_ms: 0, payload: plain(), script_odd: None });
-        cases.push(PushCase { script: vec![Beh::Status(500)], n_msgs: 2, kind: 2, delete_after_ms: 300 + j * 900, payload: plain(), script_odd: None });
+        cases.push(PushCase { script: vec![Beh::Status(200)], n_msgs: 2, kind: 1, delete_after_ms: 0, payload: plain(), script_odd: None, dl: 0 });
+        cases.push(PushCase { script: vec![Beh::Status(500)], n_msgs: 2, kind: 2, delete_after_ms: 300 + j * 900, payload: plain(), script_odd: None, dl: 0 });
     }
     cases
 }
@@ -658,4 +699,299 @@ pub fn push_check(ctx: &WorkerCtx, out: &mut WorkerOut, batches: u64) {
 pub fn replay_push(input: &serde_json::Value) -> Result<Vec<Violation>, String> {
     let cases: Vec<PushCase> = serde_json::from_value(input.get("cases").cloned().ok_or("no cases")?).map_err(|e| e.to_string())?;
     Ok(run_batch(&cases, 19).violations)
+}
+
+// ------------------------------------------------------------------------------------
+// Real-thread request storm (C07): the one place where requests run in parallel on a
+// multi-thread runtime, so that blocking locks taken in different orders by different
+// worker threads can meet. Not a pure function of the seed (real scheduling).
+
+/// One storm: `tasks` client tasks, each issuing `ops` requests chosen by a seeded LCG over
+/// 2 topics x 4 subscriptions (every third subscription is created with a push endpoint on a
+/// closed port), against one Deltio with its push loop ticking every millisecond. Returns the
+/// number of calls made and, if some call did not return within 10 s, what it was.
+pub fn run_mt_storm(seed: u64, tasks: usize, ops: usize) -> (u64, Option<String>) {
+    // on its own thread: if every worker thread of the storm's runtime ends up blocked (two
+    // blocking locks taken in opposite orders), nothing inside that runtime can report it
+    let (tx, rx) = std::sync::mpsc::channel();
+    std::thread::spawn(move || {
+        let _ = tx.send(run_mt_storm_inner(seed, tasks, ops));
+    });
+    match rx.recv_timeout(Duration::from_secs(60)) {
+        Ok(r) => r,
+        Err(_) => (0, Some("the storm did not come back within 60 s: the worker threads of the runtime are blocked (deadlock between blocking locks)".to_string())),
+    }
+}
+
+fn run_mt_storm_inner(seed: u64, tasks: usize, ops: usize) -> (u64, Option<String>) {
+    std::env::set_var("NO_PROXY", "127.0.0.1,localhost");
+    let rt = tokio::runtime::Builder::new_multi_thread().worker_threads(4).enable_all().build().unwrap();
+    let out = rt.block_on(async move {
+        let app = Deltio::new();
+        let routes = app.server_builder().into_service();
+        tokio::spawn(app.push_loop(Duration::from_millis(1)).run());
+        let calls = Arc::new(std::sync::atomic::AtomicU64::new(0));
+        let stuck: Arc<Mutex<Option<String>>> = Arc::new(Mutex::new(None));
+        let mut handles = Vec::new();
+        for tix in 0..tasks {
+            let routes = routes.clone();
+            let calls = calls.clone();
+            let stuck = stuck.clone();
+            handles.push(tokio::spawn(async move {
+                let mut p = PublisherClient::new(Wire::new(routes.clone()));
+                let mut s = SubscriberClient::new(Wire::new(routes.clone()));
+                let mut x = seed.wrapping_mul(0x9E37_79B9_7F4A_7C15).wrapping_add(tix as u64 + 1) | 1;
+                let mut next = move || {
+                    x ^= x << 13;
+                    x ^= x >> 7;
+                    x ^= x << 17;
+                    x
+                };
+                let mut acks: Vec<String> = Vec::new();
+                let mut own: Vec<String> = Vec::new();
+                let mut ctr = 0u32;
+                for _ in 0..ops {
+                    let r = next();
+                    let topic = format!("projects/mt/topics/top{}", (r >> 8) % 2);
+                    let subi = (r >> 12) % 4;
+                    let sub = format!("projects/mt/subscriptions/sub{}", subi);
+                    let kind = r % 12;
+                    let what = format!("task {} op kind {} on {} / {}", tix, kind, topic, sub);
+                    calls.fetch_add(1, std::sync::atomic::Ordering::Relaxed);
+                    let limit = Duration::from_secs(10);
+                    #[allow(deprecated)]
+                    let done = match kind {
+                        0 => tokio::time::timeout(limit, p.create_topic(Topic { name: topic.clone(), ..Default::default() })).await.is_ok(),
+                        1 => {
+                            // a push subscription under a name of this task's own: the create succeeds,
+                            // so the push registry keeps changing while the push loop walks it
+                            ctr += 1;
+                            let name = format!("projects/mt/subscriptions/t{}n{}", tix, ctr);
+                            own.push(name.clone());
+                            let push_config = Some(PushConfig { push_endpoint: "http://127.0.0.1:1/never".into(), ..Default::default() });
+                            tokio::time::timeout(limit, s.create_subscription(Subscription { name, topic: topic.clone(), ack_deadline_seconds: 10, push_config, ..Default::default() })).await.is_ok()
+                        }
+                        2 => {
+                            let push_config = if subi % 3 == 0 { Some(PushConfig { push_endpoint: "http://127.0.0.1:1/never".into(), ..Default::default() }) } else { None };
+                            tokio::time::timeout(limit, s.create_subscription(Subscription { name: sub.clone(), topic: topic.clone(), ack_deadline_seconds: 10, push_config, ..Default::default() })).await.is_ok()
+                        }
+                        3 | 4 => tokio::time::timeout(limit, p.publish(PublishRequest { topic: topic.clone(), messages: vec![PubsubMessage { data: vec![1, 2, 3], ..Default::default() }] })).await.is_ok(),
+                        5 | 6 => match tokio::time::timeout(limit, s.pull(PullRequest { subscription: sub.clone(), max_messages: 5, return_immediately: true })).await {
+                            Ok(Ok(r)) => {
+                                acks = r.into_inner().received_messages.into_iter().map(|m| m.ack_id).collect();
+                                true
+                            }
+                            Ok(Err(_)) => true,
+                            Err(_) => false,
+                        },
+                        7 => tokio::time::timeout(limit, s.acknowledge(AcknowledgeRequest { subscription: sub.clone(), ack_ids: std::mem::take(&mut acks) })).await.is_ok(),
+                        8 => tokio::time::timeout(limit, s.get_subscription(GetSubscriptionRequest { subscription: sub.clone() })).await.is_ok(),
+                        9 => tokio::time::timeout(limit, s.list_subscriptions(ListSubscriptionsRequest { project: "projects/mt".into(), page_size: 100, page_token: String::new() })).await.is_ok(),
+                        10 => {
+                            let name = if (r >> 20) % 2 == 0 { own.pop().unwrap_or(sub.clone()) } else { sub.clone() };
+                            tokio::time::timeout(limit, s.delete_subscription(DeleteSubscriptionRequest { subscription: name })).await.is_ok()
+                        }
+                        _ => {
+                            if (r >> 20) % 4 == 0 {
+                                tokio::time::timeout(limit, p.delete_topic(DeleteTopicRequest { topic: topic.clone() })).await.is_ok()
+                            } else {
+                                tokio::time::timeout(limit, p.get_topic(GetTopicRequest { topic: topic.clone() })).await.is_ok()
+                            }
+                        }
+                    };
+                    if !done {
+                        let mut g = stuck.lock().unwrap();
+                        if g.is_none() {
+                            *g = Some(what);
+                        }
+                        return;
+                    }
+                }
+            }));
+        }
+        // the storm as a whole has its own limit: blocked worker threads may keep tasks from
+        // even reaching their own timeouts
+        let all = async {
+            for h in handles {
+                let _ = h.await;
+            }
+        };
+        let finished = tokio::time::timeout(Duration::from_secs(40), all).await.is_ok();
+        let mut why = stuck.lock().unwrap().clone();
+        if !finished && why.is_none() {
+            why = Some("the storm did not finish within 40 s (worker threads blocked)".to_string());
+        }
+        (calls.load(std::sync::atomic::Ordering::Relaxed), why)
+    });
+    rt.shutdown_background();
+    out
+}
+
+/// Worker entry of the C07 real-thread stage.
+pub fn mt_storm_check(ctx: &WorkerCtx, out: &mut WorkerOut, rounds: u64) {
+    if ctx.widx != 0 {
+        return;
+    }
+    for r in 0..rounds {
+        let seed = ctx.seed.wrapping_mul(1_000_003).wrapping_add(r);
+        let input = json!({"engine":"mt_storm","seed":seed,"tasks":8,"ops":120});
+        let _ = std::fs::write(&ctx.inflight, serde_json::to_vec(&input).unwrap_or_default());
+        let (calls, stuck) = run_mt_storm(seed, 8, 120);
+        out.evaluations += calls;
+        out.class("mt_storm/round");
+        if let Some(what) = stuck {
+            out.failure = Some(Failure {
+                rule: "call_never_returned_mt".into(),
+                detail: format!("on a 4-thread runtime with the push loop running, a request did not return within 10 s: {}", what),
+                engine: "mt_storm".into(),
+                input,
+                trace: json!(null),
+            });
+            return;
+        }
+    }
+}
+
+pub fn replay_mt_storm(input: &serde_json::Value) -> Result<Vec<Violation>, String> {
+    let seed = input.get("seed").and_then(|s| s.as_u64()).ok_or("no seed")?;
+    let tasks = input.get("tasks").and_then(|s| s.as_u64()).unwrap_or(8) as usize;
+    let ops = input.get("ops").and_then(|s| s.as_u64()).unwrap_or(120) as usize;
+    // real scheduling: try a few times
+    for k in 0..5 {
+        if let (_, Some(what)) = run_mt_storm(seed.wrapping_add(k), tasks, ops) {
+            return Ok(vec![Violation { rule: "call_never_returned_mt".into(), props: vec!["C07".into()], at: 0, detail: what }]);
+        }
+    }
+    Ok(vec![])
+}
+
+// ------------------------------------------------------------------------------------
+// Real-thread deletion storm (C12): idle StreamingPulls and request loops on a
+// subscription that is deleted, on a multi-thread runtime.
+
+/// `rounds` rounds of: create a subscription, open `streams` idle StreamingPulls and a few
+/// Acknowledge loops on it, delete it. Every stream must end and every loop must see an
+/// error status within 10 s. Returns (streams opened, what got stuck).
+pub fn run_mt_delete_storm(seed: u64, rounds: usize, streams: usize) -> (u64, Option<String>) {
+    let (tx, rx) = std::sync::mpsc::channel();
+    std::thread::spawn(move || {
+        let rt = tokio::runtime::Builder::new_multi_thread().worker_threads(4).enable_all().build().unwrap();
+        let out = rt.block_on(async move {
+            let app = Deltio::new();
+            let routes = app.server_builder().into_service();
+            let mut p = PublisherClient::new(Wire::new(routes.clone()));
+            let mut s = SubscriberClient::new(Wire::new(routes.clone()));
+            let topic = "projects/md/topics/t".to_string();
+            let _ = p.create_topic(Topic { name: topic.clone(), ..Default::default() }).await;
+            let mut opened = 0u64;
+            for r in 0..rounds {
+                let sub = format!("projects/md/subscriptions/s{}", r);
+                if s.create_subscription(Subscription { name: sub.clone(), topic: topic.clone(), ack_deadline_seconds: 10, ..Default::default() }).await.is_err() {
+                    return (opened, Some(format!("round {}: CreateSubscription failed", r)));
+                }
+                let mut hs = Vec::new();
+                for k in 0..streams {
+                    let routes = routes.clone();
+                    let sub = sub.clone();
+                    let close_send = (seed.wrapping_add(r as u64 + k as u64)) % 3 == 0;
+                    opened += 1;
+                    hs.push(tokio::spawn(async move {
+                        let mut c = SubscriberClient::new(Wire::new(routes));
+                        let (txr, rxr) = tokio::sync::mpsc::channel::<StreamingPullRequest>(4);
+                        let _ = txr.send(StreamingPullRequest { subscription: sub, stream_ack_deadline_seconds: 10, max_outstanding_messages: 10, ..Default::default() }).await;
+                        let keep = if close_send { None } else { Some(txr) };
+                        let stream = futures::stream::unfold(rxr, |mut rx| async move { rx.recv().await.map(|m| (m, rx)) });
+                        let res = match c.streaming_pull(stream).await {
+                            Ok(resp) => {
+                                let mut inner = resp.into_inner();
+                                loop {
+                                    match inner.message().await {
+                                        Ok(Some(_)) => continue,
+                                        Ok(None) => break "ended without status".to_string(),
+                                        Err(st) => break format!("{:?}", st.code()),
+                                    }
+                                }
+                            }
+                            Err(st) => format!("{:?}", st.code()),
+                        };
+                        drop(keep);
+                        res
+                    }));
+                }
+                let mut loops = Vec::new();
+                for _ in 0..3 {
+                    let routes = routes.clone();
+                    let sub = sub.clone();
+                    loops.push(tokio::spawn(async move {
+                        let mut c = SubscriberClient::new(Wire::new(routes));
+                        for _ in 0..200_000u32 {
+                            if c.acknowledge(AcknowledgeRequest { subscription: sub.clone(), ack_ids: vec!["999999".into()] }).await.is_err() {
+                                return true;
+                            }
+                            tokio::task::yield_now().await;
+                        }
+                        false
+                    }));
+                }
+                // let the streams reach their wait
+                for _ in 0..((seed as usize + r) % 5) {
+                    tokio::task::yield_now().await;
+                }
+                if (seed as usize + r) % 2 == 0 {
+                    tokio::time::sleep(Duration::from_micros(200)).await;
+                }
+                match tokio::time::timeout(Duration::from_secs(10), s.delete_subscription(DeleteSubscriptionRequest { subscription: sub.clone() })).await {
+                    Ok(_) => {}
+                    Err(_) => return (opened, Some(format!("round {}: DeleteSubscription did not return within 10 s", r))),
+                }
+                for (k, h) in hs.into_iter().enumerate() {
+                    match tokio::time::timeout(Duration::from_secs(10), h).await {
+                        Ok(_) => {}
+                        Err(_) => return (opened, Some(format!("round {}: StreamingPull {} of {} was still open 10 s after DeleteSubscription had returned", r, k, sub))),
+                    }
+                }
+                for h in loops {
+                    match tokio::time::timeout(Duration::from_secs(10), h).await {
+                        Ok(_) => {}
+                        Err(_) => return (opened, Some(format!("round {}: an Acknowledge on {} did not return within 10 s of the deletion", r, sub))),
+                    }
+                }
+            }
+            (opened, None)
+        });
+        rt.shutdown_background();
+        let _ = tx.send(out);
+    });
+    match rx.recv_timeout(Duration::from_secs(600)) {
+        Ok(r) => r,
+        Err(_) => (0, Some("the deletion storm did not come back within 600 s".to_string())),
+    }
+}
+
+pub fn mt_delete_check(ctx: &WorkerCtx, out: &mut WorkerOut, rounds: usize) {
+    // four workers run storms of their own (different seeds), the others do nothing
+    if ctx.widx >= 4 {
+        return;
+    }
+    let seed = ctx.seed.wrapping_mul(7_919).wrapping_add(ctx.widx);
+    let input = json!({"engine":"mt_delete_storm","seed":seed,"rounds":rounds,"streams":6});
+    let _ = std::fs::write(&ctx.inflight, serde_json::to_vec(&input).unwrap_or_default());
+    let (opened, stuck) = run_mt_delete_storm(seed, rounds, 6);
+    out.evaluations += opened;
+    out.class("mt_delete_storm/run");
+    if let Some(what) = stuck {
+        out.failure = Some(Failure { rule: "not_released_mt".into(), detail: format!("on a 4-thread runtime: {}", what), engine: "mt_delete_storm".into(), input, trace: json!(null) });
+    }
+}
+
+pub fn replay_mt_delete(input: &serde_json::Value) -> Result<Vec<Violation>, String> {
+    let seed = input.get("seed").and_then(|s| s.as_u64()).ok_or("no seed")?;
+    let rounds = input.get("rounds").and_then(|s| s.as_u64()).unwrap_or(300) as usize;
+    let streams = input.get("streams").and_then(|s| s.as_u64()).unwrap_or(6) as usize;
+    for k in 0..4 {
+        if let (_, Some(what)) = run_mt_delete_storm(seed.wrapping_add(k), rounds, streams) {
+            return Ok(vec![Violation { rule: "not_released_mt".into(), props: vec!["C12".into()], at: 0, detail: what }]);
+        }
+    }
+    Ok(vec![])
 }
